@@ -20,7 +20,7 @@ func init() {
 		Rule: "one evaluation = a fresh server, a PRNG-chosen order of Stop relative to Run (Stop before Run; Stop 0-300us after Run was started; Stop after Ready) and, when serving, a PRNG-chosen connection state " +
 			"(connect storm with accepts in flight, handlers parked and released by a timer only after Stop was called - 5..45ms later, now and then 1.2..2.6s later -, ldaps sessions ended with close_notify / bare FIN / reset just before Stop next to plaintext peers the listener refused during the handshake (accepted connections all the same: OnClose is owed for them), slow OnClose callback held 20-120ms (every tenth time 3.3-4.8s) by the harness, clients tearing down, clients that closed their sending direction and go on reading, idle connections, handlers whose client hung up, handlers whose session ended with an Unbind, handlers whose connection ran into the server's read timeout, a held unbind-route handler, ldaps handlers parked, an OnClose callback still running while no connection is open any more), " +
 			"optionally a concurrent or later second Stop. At the fence (the instant both Stop and Run have returned) the monitor requires: no handler in flight, no OnClose in progress, one completed OnClose for every " +
-			"connection ID a handler ever saw, every served client connection closed, dial refused, the address bindable again; and over a 300ms tail no event stamped after the fence. Runs under the race detector. " +
+			"connection ID a handler ever saw, every served client connection closed (every fifth server has a 30s write timeout, every tenth a two-hour one), dial refused, the address bindable again; and over a 300ms tail no event stamped after the fence. Runs under the race detector. " +
 			"distinct_nontrivial = distinct (order, state, second-Stop, observed Ready-at-Stop) combinations",
 		Assume: []string{"events are stamped by one process-wide atomic counter at the moment they happen; 'after the fence' is a comparison of stamps, not of clocks"},
 		Phases: func(tier string, seed int64) []Phase {
